@@ -42,6 +42,15 @@ package vgirpc
 //@ func appendToBuilder
 //@   property C08
 //@   at call timeToTimestamp assert [columnsunit] iface(arg1) == dt
+// The decoder of an ArrowSerializable value resolves a field's column name as the writer
+// (findArrowField) does: the `arrow` tag, and for a field without one the name of its `vgirpc`
+// tag (repaired defect: only the arrow tag was read, so vgirpc-tagged types came back zero).
+//
+//@ func deserializeArrowSerializable
+//@   property C08
+//@   at call (reflect.StructTag).Get#1 assert [arrowfirst] arg1 == "arrow"
+//@   at call (reflect.StructTag).Get#2 assert [thenvgirpc] arg1 == "vgirpc" && tag == ""
+//@   at call parseTag assert [fallbackname] arg0 == vt && vt != "" && vt != "-" && tag == ""
 //@ lemma timestampUnitRoundTrip [C08]: forall ns int, u int :: u == 1 || u == 1000 || u == 1000000 || u == 1000000000 ==> (ns / u) * u <= ns && ns - u < (ns / u) * u
 
 //@ lemma date32RoundTrip [C08]: forall ns int :: dayOf(dayOf(ns) * 86400000000000) == dayOf(ns) &&
